@@ -1,5 +1,6 @@
 """C18 — @OrderBy / @Limit clause construction and non-inlining (compiler/universe.py)."""
 from vlib.units import unit
+from vlib import mk
 
 ANN = {'self.annotations': 'dict[str,dict[str,dict[str,val]]]'}
 F = 'compiler/universe.py'
@@ -21,7 +22,7 @@ ORDER_PRE = ["'@OrderBy' in self.annotations",
 
 
 def mk_ann(mod, limit=None, order_by=None, ground=False, noinject=False, with_=False, nowith=False):
-  a = mod.Annotations.__new__(mod.Annotations)
+  a = mk.annotations(mod)
   d = {k: {} for k in mod.Annotations.ANNOTATING_PREDICATES}
   if limit is not None:
     d['@Limit']['P'] = dict({str(i + 1): v for i, v in enumerate(limit)}, __rule_text='@Limit(P,..)')
